@@ -38,14 +38,47 @@ def hexs(b):
     return b.hex() if b else "-"
 
 
+_LOOKALIKE = {}
+
+
+def lookalikes(r, mask):
+    """Non-ASCII characters (valid UTF-8, two and three bytes) every byte `b` of which becomes a digit of radix `r`
+    under the bit fold `b & mask` (letters in either case): what a table lookup / case fold / range test done on a
+    masked byte would wrongly accept.  E.g. mask 0x7f, radix 12: U+00B0 = C2 B0 -> 'B' '0'."""
+    key = (r, mask)
+    if key not in _LOOKALIKE:
+        ok = set((DIG[:r] + DIG[:r].upper()).encode())
+        out = []
+        for cp in list(range(0x80, 0x800)) + list(range(0x800, 0x10000, 7)):
+            if 0xd800 <= cp < 0xe000:
+                continue
+            b = chr(cp).encode()
+            if all((x & mask) in ok for x in b):
+                out.append(b)
+        _LOOKALIKE[key] = out
+    return _LOOKALIKE[key]
+
+
 def str_case(rng, w, n, signed, r):
     """(tag, bytes)"""
     W = w * n
     M = 1 << W
     H = M >> 1
-    c = rng.randrange(17)
+    c = rng.randrange(18)
     if c == 16:
         c = 15
+    if c == 17:
+        # strings made (partly or wholly) of non-ASCII characters whose bytes fold onto digits under a bit mask
+        # (added after seeded change C10-r7m1: digit table indexed with `byte & 0x7f`)
+        for mask in rng.sample([0x7f, 0x7f, 0x5f, 0xdf, 0x3f, 0xbf], 4):
+            la = lookalikes(r, mask)
+            if la:
+                k = rng.choice([1, 1, 2, 3])
+                parts = [rng.choice(la) for _ in range(k)]
+                if rng.random() < 0.5:
+                    parts.insert(rng.randrange(len(parts) + 1), numeral(rng.randrange(r ** 2), r).encode())
+                return "lookalike-%02x" % mask, rng.choice([b"", b"", b"+", b"-"]) + b"".join(parts)
+        c = 9
     if c == 0:
         return "empty", b""
     if c == 1:
